@@ -100,6 +100,12 @@ def run(model, col, tier):
         asserts = [s for s in ast.walk(gp) if isinstance(s, ast.Assert) and unparse(s.test) in (f"{gp.args.args[0].arg}.GetSize() == {gp.args.args[1].arg}.GetSize()", f"{gp.args.args[1].arg}.GetSize() == {gp.args.args[0].arg}.GetSize()")]
         col.check(len(asserts) >= 2, "R09.2", f"{TYPES}::_GetCommonPrimitiveType equal shapes ({kind})", "identical shape is asserted before the common type is built", "the shape equality assertion is missing", TYPES, gp)
     # ---------------- R09.3 ------------------------------------------------------
+    # operands are converted wherever the operator sits: the cast pass reaches every expression
+    from ..astcover import check_handler_coverage
+    from ..dispatch import Dispatch as _Dispatch9
+
+    check_handler_coverage(model, _Dispatch9(model), col, "R09.3", model.cls("nsl/passes/AddImplicitCasts.py", "AddImplicitCastVisitor"), "nsl/passes/AddImplicitCasts.py",
+                           "operators below it (in call arguments, constructor arguments, index expressions) never get their operand conversions")
     ctv = model.cls(CT, "ComputeTypeVisitor").own_method("_ProcessExpression")
     from ..sem import alpha as _alpha93
 
